@@ -51,6 +51,49 @@ def _private(name: str) -> bool:
     return name.startswith("_") and not (name.startswith("__") and name.endswith("__"))
 
 
+def _absorbable_name(name: str) -> bool:
+    """Any function that is not a dunder may be a helper: whether it is one is decided by how it is referenced (only direct calls from
+    inside the package) and by KEEP (names the rules anchor on), not by a leading underscore - maintainers extract public helpers too."""
+    return not (name.startswith("__") and name.endswith("__"))
+
+
+_rule_names_cache: Optional[set] = None
+
+
+def names_used_by_rules() -> set[str]:
+    """Every identifier that occurs inside a string literal of the analysis' own sources (rule modules, engines, known findings, allow
+    tables): functions so named are anchors of some rule and are never absorbed.  Computed from /verif/sa itself, so the list cannot go
+    stale when a rule is added."""
+    global _rule_names_cache
+    if _rule_names_cache is not None:
+        return _rule_names_cache
+    import os
+    import re
+
+    here = os.path.dirname(os.path.abspath(__file__))
+    out: set[str] = set()
+    ident = re.compile(r"[A-Za-z_][A-Za-z0-9_]*")
+    for dirpath, _, files in os.walk(here):
+        for fn in files:
+            if fn.endswith(".py") and fn not in ("selftest.py",):
+                try:
+                    tree = ast.parse(open(os.path.join(dirpath, fn), encoding="utf-8").read())
+                except SyntaxError:
+                    continue
+                for n in ast.walk(tree):
+                    if isinstance(n, ast.Constant) and isinstance(n.value, str) and len(n.value) < 400:
+                        out.update(ident.findall(n.value))
+    kf = os.path.join(os.path.dirname(here), "known_findings.json")
+    if os.path.exists(kf):
+        import json
+
+        for f in json.load(open(kf)).get("findings", []):
+            if f.get("status", "known") == "known":
+                out.update(ident.findall(f.get("key", "")))
+    _rule_names_cache = out
+    return out
+
+
 class _Helper:
     def __init__(self, kind: str, name: str, node: ast.FunctionDef, modname: str, cls: Optional[ast.ClassDef], outer: Optional[ast.AST], container: list):
         self.kind = kind  # module | method | nested
@@ -240,7 +283,9 @@ def _inline(h: _Helper, call: ast.Call, stmt: ast.stmt, lst: list, k: int, recv:
             return False
         p0 = params[0].arg
         params = params[1:]
-        if h.classm:
+        if h.classm and isinstance(recv, ast.Name) and recv.id == p0:
+            rename.pop(p0, None)  # cls stays cls
+        elif h.classm:
             if isinstance(recv, ast.Name) and recv.id == "self":
                 val: ast.expr = ast.Call(func=ast.Name(id="type", ctx=ast.Load()), args=[ast.Name(id="self", ctx=ast.Load())], keywords=[])
             else:
@@ -311,7 +356,10 @@ def _inline(h: _Helper, call: ast.Call, stmt: ast.stmt, lst: list, k: int, recv:
 
     def ret_assign(r: ast.Return) -> ast.stmt:
         val = r.value if r.value is not None else ast.Constant(value=None)
-        return ast.copy_location(ast.Assign(targets=[ast.Name(id=res, ctx=ast.Store())], value=val), r)
+        asg = ast.copy_location(ast.Assign(targets=[ast.Name(id=res, ctx=ast.Store())], value=val), r)
+        if fn.returns is not None:
+            asg._ann = copy.deepcopy(fn.returns)  # type: ignore[attr-defined]  # the declared return type stays known to type inference
+        return asg
 
     if tail_only:
         if returns:
@@ -383,18 +431,18 @@ def _inline(h: _Helper, call: ast.Call, stmt: ast.stmt, lst: list, k: int, recv:
 
 def absorb_helpers(trees: dict[str, ast.Module], keep: Iterable[str] = ()) -> dict:
     """N1.  `trees`: module name -> ast.Module (mutated in place)."""
-    keep = set(keep) | KEEP
+    keep = set(keep) | KEEP | names_used_by_rules()
     stats = {"absorbed": [], "rejected": {}}
     ctr = _Counter()
     for _round in range(6):  # innermost helpers first; a round may make their callers absorbable
         helpers: list[_Helper] = []
         for modname, tree in trees.items():
             for st in tree.body:
-                if isinstance(st, ast.FunctionDef) and _private(st.name):
+                if isinstance(st, ast.FunctionDef) and _absorbable_name(st.name):
                     helpers.append(_Helper("module", st.name, st, modname, None, None, tree.body))
                 elif isinstance(st, ast.ClassDef):
                     for m in st.body:
-                        if isinstance(m, ast.FunctionDef) and _private(m.name):
+                        if isinstance(m, ast.FunctionDef) and _absorbable_name(m.name):
                             helpers.append(_Helper("method", m.name, m, modname, st, None, st.body))
             for f in ast.walk(tree):
                 if isinstance(f, (ast.FunctionDef, ast.AsyncFunctionDef)):
@@ -798,6 +846,8 @@ def inline_single_use_temps(tree: ast.Module) -> int:
                         t = st.targets[0].id
                         if stores.get(t) != 1 or len(loads.get(t, [])) != 1:
                             continue
+                        if hasattr(st, "_ann"):
+                            continue  # a declared type would be lost: the annotated name stays
                         if any(isinstance(x, (ast.NamedExpr, ast.Yield, ast.YieldFrom, ast.Await)) for x in ast.walk(st.value)):
                             continue
                         use = loads[t][0]
